@@ -261,6 +261,7 @@ class _Resolver:
     def __init__(self, tree, cls, repo, rel):
         self.tree, self.cls, self.repo, self.rel = tree, cls, repo, rel
         self._mods: dict = {}
+        self._origin: dict = {}
 
     def _module(self, dotted: str, level: int):
         if self.repo is None:
@@ -293,6 +294,8 @@ class _Resolver:
         rel = self.rel if rel is None else rel
         defs = [n for n in tree.body if isinstance(n, ast.FunctionDef) and n.name == name]
         if len(defs) == 1:
+            if tree is not self.tree:
+                self._origin[id(defs[0])] = rel               # the module the helper's global names belong to
             return defs[0]
         if defs or depth > 2:
             return None
@@ -450,9 +453,14 @@ class _Inliner:
             if body is None:
                 return None
         out = prologue + body
+        origin = self.res._origin.get(id(helper), getattr(call, "_mod", None))
         for st in out:
             ast.copy_location(st, call)
             ast.fix_missing_locations(st)
+            if origin is not None:
+                for node in ast.walk(st):
+                    if isinstance(node, ast.Call) and not hasattr(node, "_mod"):
+                        node._mod = origin
         # helpers called by the helper
         wrapper = ast.Module(body=out, type_ignores=[])
         self._process(wrapper, stack + [helper.name])
@@ -622,7 +630,11 @@ def _record_value(val, resolver):
             and len({k.value for k in val.keys}) == len(val.keys):
         return "dict", [(k.value, v) for k, v in zip(val.keys, val.values)], False, None
     if isinstance(val, ast.Call) and isinstance(val.func, ast.Name) and resolver is not None:
-        cdef = resolver.klass(val.func.id)
+        origin = getattr(val, "_mod", None)
+        if origin is not None and resolver._mods.get(origin) is not None:
+            cdef = resolver.klass(val.func.id, resolver._mods[origin], origin)
+        else:
+            cdef = resolver.klass(val.func.id)
         rc = _record_class(cdef) if cdef is not None else None
         if rc is None:
             return None
@@ -776,6 +788,59 @@ def split_records(fn, resolver):
     return fn
 
 
+def inline_partials(fn):
+    """`run = partial(f, a, k=v)` ... `run(b, k2=w)`  ->  `f(a, b, k=v, k2=w)`: a local bound exactly once to
+    functools.partial(...) whose EVERY use is a call (never handed on, so nobody else can call it with other arguments);
+    the frozen arguments must be names / attribute paths of roots bound at most once / constants (evaluated early or late
+    makes no difference); a keyword given at the call overrides the frozen one."""
+    for _ in range(6):
+        counts = _binding_counts(fn)
+        done = False
+        for lst in list(_stmt_lists(fn)):
+            for st in list(lst):
+                tgt = val = None
+                if isinstance(st, ast.Assign) and len(st.targets) == 1:
+                    tgt, val = st.targets[0], st.value
+                elif isinstance(st, ast.AnnAssign) and st.value is not None:
+                    tgt, val = st.target, st.value
+                if not (isinstance(tgt, ast.Name) and counts.get(tgt.id) == 1 and isinstance(val, ast.Call)
+                        and ast.unparse(val.func) in ("partial", "functools.partial") and val.args
+                        and "partial" not in counts and "functools" not in counts):
+                    continue
+                frozen = val.args[1:] + [k.value for k in val.keywords]
+                if any(isinstance(a, ast.Starred) for a in val.args) or any(k.arg is None for k in val.keywords) \
+                        or not _simple_path(val.args[0]) \
+                        or not all(isinstance(a, ast.Constant) or (_simple_path(a) and counts.get(_root(a), 0) <= 1)
+                                   for a in frozen):
+                    continue
+                par = _parents(fn)
+                uses = [n for n in ast.walk(fn) if isinstance(n, ast.Name) and n.id == tgt.id and n is not tgt]
+                calls = [par.get(id(n)) for n in uses]
+                if not uses or not all(isinstance(c, ast.Call) and c.func is n for c, n in zip(calls, uses)):
+                    continue
+                for c in calls:
+                    given = {k.arg for k in c.keywords}
+                    if None in given:
+                        break
+                else:
+                    for c in calls:
+                        given = {k.arg for k in c.keywords}
+                        c.func = ast.copy_location(_copy.deepcopy(val.args[0]), c.func)
+                        c.args = [_copy.deepcopy(a) for a in val.args[1:]] + c.args
+                        c.keywords = [_copy.deepcopy(k) for k in val.keywords if k.arg not in given] + c.keywords
+                        ast.fix_missing_locations(c)
+                    lst.remove(st)
+                    if not lst:
+                        lst.append(ast.copy_location(ast.Pass(), st))
+                    done = True
+                    break
+            if done:
+                break
+        if not done:
+            break
+    return fn
+
+
 def hoist_walrus(fn):
     """`if (x := e) ...:` / `y = f((x := e))`  ->  `x = e` in front of the statement, when the binding is evaluated
     unconditionally and first (nothing of the statement that is evaluated before it reads x or can be affected by it: the
@@ -865,6 +930,7 @@ def normalise(fn, tree, cls=None, repo=None, rel=None, loops=True):
     if any(ast.unparse(d) == "staticmethod" for d in fn.decorator_list):
         first = None
     hoist_walrus(fn)
+    inline_partials(fn)
     res = _Resolver(tree, cls, repo, rel)
     _Inliner(fn, res, first)._process(fn, [fn.name])
     ifexp_to_if(fn)
@@ -874,6 +940,7 @@ def normalise(fn, tree, cls=None, repo=None, rel=None, loops=True):
     split_tuple_assigns(fn)
     split_records(fn, res)
     subst_aliases(fn)
+    inline_partials(fn)
     ast.fix_missing_locations(fn)
     fn._tree = tree
     return fn
